@@ -159,6 +159,11 @@ def native_sampling(setup, call, clauses, allow_exc=(), n=300, seed=12345):
     return None
 
 
+class ContractShape(Exception):
+    """raised by a contract clause when an INTERNAL structure it was written against (number of helper calls, order in which
+    auxiliary variables are declared ...) is not what it expects: nothing is refuted, the contract needs re-writing (undecided)"""
+
+
 class HarnessError(BaseException):
     """the checking harness itself failed (exit 3); deliberately not an Exception so no path handler swallows it"""
 
@@ -212,7 +217,8 @@ def check_function(function, setup, call, clauses, *, mode, label="", bounded=Fa
         if p.outcome == "unsupported":
             # DESIGN 2.6: concretise and run natively; a clause broken natively is a violation with a
             # failing input, otherwise the path stays undecided (never counted as discharged)
-            hit = native_sampling(setup, call, clauses, allow_exc) if not holder.get("sampled") else None
+            # only for harnesses whose clauses can be evaluated on floats (replay=None marks the symbolic-only ones)
+            hit = native_sampling(setup, call, clauses, allow_exc) if (replay is not None and not holder.get("sampled")) else None
             holder["sampled"] = True
             if hit:
                 out.append(ob(function, hit["clause"], plabel + ",native-fallback", "violated", mode=mode, bounded=True,
@@ -307,6 +313,18 @@ def check_function(function, setup, call, clauses, *, mode, label="", bounded=Fa
                     rep = dict(rep, confirmed=None, why="counter-model interprets an uninterpreted cone predicate; "
                                                         "no numerically realisable failing input was searched for")
                 if rep is not None and rep.get("confirmed") is False:
+                    # the symbolic run and the native run disagree: the proxies / shims do not model this code faithfully
+                    # (e.g. in-place writes through a sparse matrix's .data).  Nothing is refuted by the counter-model;
+                    # fall back to the bounded stand-in once per harness: the same contract on the real code at sampled inputs
+                    if "spurious_sampled" not in holder:
+                        holder["spurious_sampled"] = native_sampling(setup, call, clauses, allow_exc, n=60) if replay is not None else None
+                    hit = holder["spurious_sampled"]
+                    if hit and not holder.get("spurious_reported"):
+                        holder["spurious_reported"] = True
+                        out.append(ob(function, hit["clause"], oid_label + ",native-fallback", "violated", mode=mode, bounded=True,
+                                      reason="symbolic and native runs disagree (code outside the shims' model); the clause fails natively on a sampled input",
+                                      path=p.cond_str(), model={k: str(val) for k, val in hit["inputs"].items()},
+                                      replayed=dict(hit, confirmed=True), backend="native", seconds=0.0))
                     out.append(ob(function, cl.name, oid_label, "undecided", model=model, replayed=rep,
                                   reason="counter-model not reproduced natively (spurious)", **rec))
                 else:
